@@ -1153,6 +1153,50 @@ static int parse_set(vnacal_load_state_t *vlsp, yaml_node_t *node)
 		vcp->vc_filename, node->start_mark.line + 1);
 	return -1;
     }
+
+    /*
+     * Validate the dimensions against the type as in vnacal_new_alloc.
+     */
+    if (rows < 1 || columns < 1) {
+	_vnacal_error(vcp, VNAERR_SYNTAX,
+		"%s (line %ld) error: \"rows\" and \"columns\" must be "
+		"at least 1",
+		vcp->vc_filename, node->start_mark.line + 1);
+	return -1;
+    }
+    switch (type) {
+    case VNACAL_T8:
+    case VNACAL_TE10:
+    case VNACAL_T16:
+	if (rows > columns) {
+	    _vnacal_error(vcp, VNAERR_SYNTAX,
+		    "%s (line %ld) error: type %s requires rows <= columns",
+		    vcp->vc_filename, node->start_mark.line + 1,
+		    vnacal_type_to_name(type));
+	    return -1;
+	}
+	break;
+
+    case VNACAL_U8:
+    case VNACAL_UE10:
+    case VNACAL_U16:
+    case VNACAL_UE14:
+    case VNACAL_E12:
+	if (rows < columns) {
+	    _vnacal_error(vcp, VNAERR_SYNTAX,
+		    "%s (line %ld) error: type %s requires rows >= columns",
+		    vcp->vc_filename, node->start_mark.line + 1,
+		    vnacal_type_to_name(type));
+	    return -1;
+	}
+	break;
+
+    default:
+	_vnacal_error(vcp, VNAERR_SYNTAX,
+		"%s (line %d) error: invalid calibration type",
+		vcp->vc_filename, type_line);
+	return -1;
+    }
     _vnacal_layout(&vl, type, rows, columns);
     if ((calp = _vnacal_calibration_alloc(vcp, type, rows, columns,
 		    frequencies, VL_ERROR_TERMS(&vl))) == NULL) {
